@@ -824,6 +824,17 @@ func (db *DB) tCompaction() {
 	}()
 
 	for {
+		if atomic.LoadUint32(&db.compReadOnly) != 0 {
+			// The DB has been switched to read-only and what was in flight
+			// is done: no more table compaction until it is closed.
+			for i := range waitQ {
+				waitQ[i].ack(ErrReadOnly)
+				waitQ[i] = nil
+			}
+			waitQ = waitQ[:0]
+			<-db.closeC
+			return
+		}
 		if db.tableNeedCompaction() {
 			select {
 			case x = <-db.tcompCmdC:
@@ -856,6 +867,14 @@ func (db *DB) tCompaction() {
 			case <-db.closeC:
 				return
 			}
+		}
+		if atomic.LoadUint32(&db.compReadOnly) != 0 {
+			// Switched to read-only while waiting for a command.
+			if x != nil {
+				x.ack(ErrReadOnly)
+				x = nil
+			}
+			continue
 		}
 		if x != nil {
 			switch cmd := x.(type) {
